@@ -138,7 +138,7 @@ def sortStr (l : List String) : List String := l.foldl (fun acc s => insertStr s
 def showState (st : State) : String :=
   let i := st.imm.map fun e => s!"I{e.1.1}/{e.1.2}={hex e.2.data}{showLeases e.2.leases}"
   let u := st.up.map fun e => s!"U{e.1.1}/{e.1.2}={hex e.2.secret}:{showCells e.2.cells}{showLeases [e.2.lease]}"
-  let m := st.muts.map fun e => s!"M{e.1.1}/{e.1.2}={hex e.2.enabler}:{hex e.2.data}{showLeases e.2.leases}"
+  let m := st.muts.map fun e => s!"M{e.1.1}/{e.1.2}={hex e.2.enabler}:{hex e.2.data}{showLeases e.2.leases}@{hex e.2.nodeid}"
   " ".intercalate (sortStr (i ++ u ++ m) ++ [s!"adv={st.advisories}"])
 
 end Tahoe.Http.Text
